@@ -207,6 +207,44 @@ def cross_entry(prop, tier, seed, count, profiles, res):
     finish(prop, outdir, profile + "/python", res)
 
 
+def es_oracle(prop, tier, seed, count, profiles, res):
+    """The property's conversion / comparison helper cases with the installed ECMAScript engine
+    (node) as the implementation under test: spec_ok there says S is what JavaScript computes,
+    corr_ok that M is.  Skipped (and said so) when node is not installed."""
+    node = shutil.which("node")
+    if not node:
+        res.setdefault("notes", []).append("node not found: ECMAScript oracle skipped")
+        return
+    profile = profiles[0]
+    exe, msg = D.step_harness_build(profile)
+    if not exe:
+        res["errors"].append(f"harness build failed ({profile}): {msg}")
+        return
+    n = 600 if tier == "quick" else 8000
+    outdir = os.path.join(D.BUILD, "cases", f"{prop}-node-{profile}")
+    shutil.rmtree(outdir, ignore_errors=True)
+    os.makedirs(outdir)
+    base = [exe, "gen", "ES", "--from", prop, "--as", prop, "--seed", str(seed), "--count", str(n), "--tier", tier, "--out", outdir,
+            "--profile", profile]
+    rc, out = D.sh(base + ["--stage", "cases"], timeout=600)
+    if rc != 0:
+        res["errors"].append(f"oracle case generation failed: {out[-1000:]}")
+        return
+    rc, out = D.sh([node, os.path.join(D.VERIF, "tools", "es_oracle.js"), os.path.join(outdir, "es_cases.jsonl"),
+                    os.path.join(outdir, "es_results.jsonl")], timeout=600)
+    if rc != 0:
+        res["errors"].append(f"node oracle failed: {out[-1000:]}")
+        return
+    rc, out = D.sh(base + ["--stage", "emit"], timeout=600)
+    if rc != 0:
+        res["errors"].append(f"oracle emission failed: {out[-1000:]}")
+        return
+    finish(prop, outdir, profile + "/node-oracle", res)
+
+
+# properties whose helper cases are also evaluated by the ECMAScript engine
+ES_ORACLE = {"C07", "C08", "C09", "C10", "C16"}
+
 # properties of the rule language whose cases are also sampled through the CLI and Python
 CROSS_ENTRY = {"C%02d" % i for i in range(1, 17)}
 
